@@ -107,11 +107,16 @@ type recWriter struct {
 	failAt int // fail at the n-th Write call (1-based); 0 = never
 	err    error
 	short  int // when failing: accept this many bytes first (short write)
+	full   bool // when failing: accept ALL bytes of that call and return the error with the full count
 }
 
 func (w *recWriter) Write(p []byte) (int, error) {
 	w.writes = append(w.writes, len(p))
 	if w.failAt > 0 && len(w.writes) >= w.failAt {
+		if w.full {
+			w.buf.Write(p)
+			return len(p), w.err
+		}
 		if w.short > 0 && len(p) > w.short {
 			w.buf.Write(p[:w.short])
 			return w.short, w.err
